@@ -180,6 +180,7 @@ func init() {
 				}
 			}
 			return []core.Workload{
+				{Name: "callback_histories", N: c.Pick(120, 1200), Fn: cbHistory("C03")},
 				{Name: "callback_success", N: c.Pick(700, 8000), Before: zone("UTC", 0), Fn: c03Case},
 				// the process time zone must not leak into the (UTC) instants of the assertion
 				{Name: "callback_success_tz_plus2", N: c.Pick(100, 1000), Before: zone("P2", 2*3600), Fn: func(r *core.Run, idx int, rng *rand.Rand) { c03CaseWL(r, "callback_success_tz_plus2", idx, rng) }},
